@@ -10,6 +10,20 @@ BASELINE_OFF = ("cd /repo && env -u PYOPENAPI_GEN_VERIF /venv/bin/python -m pyte
 
 # id -> (category, technique, level text, level note, design ref)
 CHECKS = {
+    "C03": ("exploration", "runtime monitoring: round-trip oracle through the emitted package's own converter in a fresh interpreter",
+            "For documents from the grammar every generated object model / array alias is fed schema-conforming instances (required-only, all, random subsets, "
+            "explicit nulls; formats date-time/date/uuid/time/byte/...; 7 property-name styles; self-references incl. arrays of self) and "
+            "unstructure_to_dict(structure_from_dict(d, M)) is compared with d under the tolerance the property states.",
+            "Model located by alnum-casefold name match; unions excluded (C14); name collisions inside one schema are C20's workload.",
+            "DESIGN.md §4 C03"),
+    "C14": ("exploration", "runtime monitoring: decode/re-encode oracle over enumerated unions through the emitted converter; predicate-keyed known finding",
+            "All ordered 2-variant unions over a 9-shape pool, sampled (thorough: all) 3- and 4-variant unions, and all 2-3 variant discriminated unions are generated "
+            "as alias, field, inline list item and named-array field; every variant's minimal and maximal payload is decoded and re-encoded with the package's own "
+            "converter; lossy decodes, wrong variant class under a discriminator, guessed unmapped discriminator values and silently retried undecodable mapped "
+            "variants are violations. The open first-match finding is matched only on (union, payload) pairs where an earlier variant's required keys are "
+            "contained in the payload.",
+            "Shapes pool is fixed; payloads are the minimal/maximal document per variant.",
+            "DESIGN.md §4 C14"),
     "C06": ("exploration", "runtime monitoring: exception classifier on calls of generated methods under a status-injecting fake server, two transports",
             "Every generated operation is called with the MockTransport answering statuses outside 200-299 (quick: declared + boundary + random; thorough: ALL of "
             "100-199 and 300-599), through the bundled HttpxTransport and through a minimal custom transport that returns non-2xx unraised. The outcome must be a "
